@@ -6,7 +6,8 @@ ID = "C05"
 THM_MODULES = ["Minicbor.Thm.C05"]
 P = "Minicbor.C05."
 REQUIRED = [P + n for n in """representable_iff int_accessor_ok int_accessor_overflow typeMismatch_err
-int_accessor_neg_rejected int_accessor_exact ranges""".split()]
+int_accessor_neg_rejected int_accessor_exact ranges int_range int_of_i128_exact int_of_u128_exact int_of_i64_exact int_of_u64_exact
+int_to_unsigned_exact int_to_u64_exact int_to_u128_exact int_to_i64_exact int_to_signed_exact int_to_i128_exact""".split()]
 PACKAGES = ["hcore"]
 ACCS = ["u8", "u16", "u32", "u64", "i8", "i16", "i32", "i64", "int", "char"]
 RANGE = {"u8": (0, 255), "u16": (0, 65535), "u32": (0, 2**32 - 1), "u64": (0, 2**64 - 1),
@@ -85,7 +86,38 @@ def streams(rng, tier):
     s1.shrinkable = False
     s2 = Stream("datatype-accepts", "hcore", dt_ops, judge=judge_dt, rule="dec datatype <head>: the reported Type names an accessor; that accessor is then run on the same bytes")
     s2.shrinkable = False
-    return [s1, s2]
+    # Int <-> primitive conversions: oracle = plain integer arithmetic
+    TR = dict({k: v for k, v in RANGE.items() if k != "int"}, u128=(0, 2**128 - 1), i128=(-2**127, 2**127 - 1))
+    conv = []
+    vals = set()
+    for b in gen.boundaries(64) + [2**64, 2**64 + 1, 2**100]:
+        vals |= {b, -b, -1 - b, b - 1}
+    for _ in range(3000 if tier == "quick" else 100000):
+        v = gen.rand_u(rng, 66); vals |= {v, -1 - v}
+    for v in sorted(vals):
+        for t in TR:
+            if -2**127 <= v < 2**127:
+                conv.append(f"intconv to:{t} {v}")
+            lo, hi = TR[t]
+            if lo <= v <= hi:
+                conv.append(f"intconv from:{t} {v}")
+    def judge_conv(op, impl, model, spec):
+        w = op.split(" ")
+        d, t = w[1].split(":")
+        v = int(w[2])
+        lo, hi = TR[t]
+        inint = -2**64 <= v <= 2**64 - 1
+        if d == "to":
+            exp = "norep" if not inint else (f"ok {v}" if lo <= v <= hi else "err")
+        else:
+            exp = f"ok {v}" if inint else "err"
+        if impl != exp:
+            return "violation"
+        return "ok" if impl == model else "corr"
+    s3 = Stream("int-conversions", "hcore", conv, judge=judge_conv,
+                rule="Int::try_from(i128) then T::try_from(Int), and Int::from/try_from(T), for every boundary 2^k±3, ±2^64 edges and random values x all ten primitive types")
+    s3.shrinkable = False
+    return [s1, s2, s3]
 
 
 DT_ACC = {"u8": "u8", "u16": "u16", "u32": "u32", "u64": "u64", "i8": "i8", "i16": "i16", "i32": "i32", "i64": "i64", "int": "int"}
